@@ -24,7 +24,7 @@ func GlobalName(name string) string {
 	// global IDs; e.g.
 	//
 	//    @"2"
-	if _, err := strconv.ParseUint(name, 10, 64); err == nil {
+	if isNumeric(name) {
 		return `@"` + name + `"`
 	}
 	return "@" + EscapeIdent(name)
@@ -63,7 +63,7 @@ func LocalName(name string) string {
 	// local IDs; e.g.
 	//
 	//    %"2"
-	if _, err := strconv.ParseUint(name, 10, 64); err == nil {
+	if isNumeric(name) {
 		return `%"` + name + `"`
 	}
 	return "%" + EscapeIdent(name)
@@ -102,7 +102,7 @@ func LabelName(name string) string {
 	// label IDs; e.g.
 	//
 	//    "2":
-	if _, err := strconv.ParseUint(name, 10, 64); err == nil {
+	if isNumeric(name) {
 		return `"` + name + `":`
 	}
 	return EscapeIdent(name) + ":"
@@ -166,6 +166,13 @@ func AttrGroupID(id int64) string {
 //
 //	http://www.llvm.org/docs/LangRef.html#identifiers
 func ComdatName(name string) string {
+	// There are no comdat IDs; a numeric comdat name is not a valid bare
+	// identifier and must be quoted; e.g.
+	//
+	//    $"2"
+	if isNumeric(name) {
+		return `$"` + name + `"`
+	}
 	return "$" + EscapeIdent(name)
 }
 
@@ -183,6 +190,10 @@ func ComdatName(name string) string {
 func MetadataName(name string) string {
 	valid := func(b byte) bool {
 		return strings.IndexByte(tail, b) != -1
+	}
+	if len(name) == 0 {
+		// An empty metadata name has no textual representation.
+		return "!"
 	}
 	if strings.ContainsRune(decimal, rune(name[0])) {
 		// Escape first character if digit, to distinguish named from unnamed
@@ -230,7 +241,11 @@ const (
 // EscapeIdent replaces any characters which are not valid in identifiers with
 // corresponding hexadecimal escape sequence (\XX).
 func EscapeIdent(s string) string {
-	replace := false
+	// A bare identifier may not start with a digit (e.g. @1a is lexed as the ID
+	// @1 followed by a); quote such names. Names consisting of digits only are
+	// left to the caller, since they denote IDs in some contexts (e.g. %2 for
+	// type names).
+	replace := len(s) > 0 && strings.IndexByte(decimal, s[0]) != -1 && !isNumeric(s)
 	extra := 0
 	for i := 0; i < len(s); i++ {
 		if strings.IndexByte(tail, s[i]) == -1 {
@@ -371,6 +386,20 @@ func Unquote(s string) []byte {
 	// Skip double-quotes.
 	s = s[1 : len(s)-1]
 	return Unescape(s)
+}
+
+// isNumeric reports whether s is a non-empty sequence of decimal digits (of any
+// length; in particular, not limited to the range of uint64).
+func isNumeric(s string) bool {
+	if len(s) == 0 {
+		return false
+	}
+	for i := 0; i < len(s); i++ {
+		if s[i] < '0' || s[i] > '9' {
+			return false
+		}
+	}
+	return true
 }
 
 // unhex returns the numeric value represented by the hexadecimal digit b. It
